@@ -586,3 +586,9 @@ for _k in (1, 2):
                       ensures=[("feature_assign", ens_feat_set)], timeout=20 if _k == 1 else 120,
                       # the two-location read-back proof needs minutes of sequence-theory solving: thorough tier only
                       tiers=("quick", "thorough") if _k == 1 else ("thorough",)))
+
+from pyvc.api import bounded_via_script
+bounded = bounded_via_script("C13")
+ASSUMPTIONS.append("bounded stand-in (labelled, not a proof; the proofs above are the decision for the functions under contract): seeded random annotated "
+                   "sequences through the public API vs a per-base model - slices, slice of slice, feature read / assignment with 1..3 locations on either "
+                   "strand, reverse complement once and twice, copy (bounded/C13.py); it supplies failing inputs that replay on the public API")
